@@ -76,6 +76,42 @@ theorem pbf_roundtrip_one_core (es : List Element) :
     | cons b bs ih => simp [List.replicate_succ, ih]
   simp [readCores, hz, h1]
 
+/-! ### The order across goroutines (finding `cores-gt1-cross-block-order`)
+
+The property says "in the same order … for any number of reader cores". What the callback of
+`ReadPBFWithOptions` sees is an interleaving (`Shuffle`) of the per-goroutine streams; nothing orders the
+`emit` calls of different goroutines. -/
+
+/-- the statement as written: whatever the schedule, the callback sees the written order -/
+def total_order_statement : Prop :=
+  ∀ (es : List Element) (g : Nat) (assign : List Nat) (glob : List Element),
+    assign.length = (writeAll es).length → (∀ a ∈ assign, a < g) →
+    Shuffle (readCores {} (writeAll es) assign g) glob → glob = es.map quantise
+
+/-- It holds outside the class `crossBlockClass` (at most one goroutine, or at most one block): then every
+order in which the callback can see the elements is the written order. -/
+theorem total_order_partial (es : List Element) (g : Nat) (assign : List Nat) (glob : List Element)
+    (hlen : assign.length = (writeAll es).length) (hlt : ∀ a ∈ assign, a < g)
+    (hc : crossBlockClass g (writeAll es).length = false)
+    (h : Shuffle (readCores {} (writeAll es) assign g) glob) : glob = es.map quantise :=
+  total_order_of_single es g assign glob hlen hlt hc (pbf_roundtrip_cores es assign g).1 h
+
+def orderWitness : List Element := [.node 1 0 0 [], .node 2 0 0 [], .way 3 [] []]
+
+/-- …and fails inside it: two nodes and a way are two blocks; with two goroutines (block 0 → goroutine 0, block
+1 → goroutine 1) the callback may see node 1, the way, node 2. -/
+theorem total_order_counterexample : ¬ total_order_statement := by
+  intro h
+  have hs : Shuffle (readCores {} (writeAll orderWitness) [0, 1] 2)
+      [.node 1 0 0 [], .way 3 [] [], .node 2 0 0 []] :=
+    Shuffle.cons (k := 0) (rest := [.node 2 0 0 []]) (by decide)
+      (Shuffle.cons (k := 1) (rest := []) (by decide)
+        (Shuffle.cons (k := 0) (rest := []) (by decide) (Shuffle.nil (by decide))))
+  have := h orderWitness 2 [0, 1] _ (by decide) (by decide) hs
+  exact absurd this (by decide)
+
+example : crossBlockClass 2 (writeAll orderWitness).length = true := by decide
+
 /-- `lookupString` never hands out index 0 (the reserved entry), whatever the string — the empty string
 included — and the index it returns resolves to the string in the table. -/
 theorem string_index (S : List Str) (s : Str) :
